@@ -1,7 +1,191 @@
-/- Driver entry for property C19: one request payload in, one canonical response line out. -/
-import Molli.Util.Basic
-namespace Molli.Driver.C19
+/-
+Driver entry for property C19 (model: Molli.Model.Grid). One request payload in, one response line out.
 
-def handle (_payload : String) : String := "err:not-implemented"
+Number tokens: in float modes 8 (binary32) or 16 (binary64) hex digits of the IEEE bit pattern; in
+exact mode a rational `p/q` or `p`.  A point is `x:y:z`; a list of points is joined by `,` (`-` = empty);
+a list of conformers (each a list of points) by `|` (`~` = no conformer).  Lists of numbers by `,`.
+
+  cdist22 <f32|f64|rat> <sq|eu> <A> <B>       → `<L1> <L2> <entries C order, `,`>`
+  cdist32 <f32|f64|rat> <sq|eu> <ENS> <B>     → `<X> <L2> <entries C order>`   (row length L1 is that of each conformer)
+  grid <lx> <ly> <lz> <rx> <ry> <rz> <pad> <s>→ `<nx> <ny> <nz> <points>`       | err:domain
+  nearest <band> <maxd> <atoms> <grid>        → per grid point `<k>:<flag>`; flag=1 iff the decision is within the
+                                                relative band of the cut-off or of a tie between two atoms
+  prune <band> <maxd> <eps> <atoms> <grid>    → `<exact kept indices>;<class per point>` class ∈ K (must keep), D (must drop),
+                                                F (free), lower case when within the band of a class boundary
+  aso <band> <w|-> <radii> <ENS> <grid>       → per grid point `<value p/q>:<flag>`
+  aeif <band> <w|-> <radii> <CHARGES> <ENS> <grid> → per grid point `<value p/q>:<flag>`   (CHARGES: lists joined by `|`)
+  asof32 <w|-> <radii f64> <ENS f32> <grid f32> → per grid point value p/q with the occupancy test evaluated in
+                                                binary32/binary64 exactly as the code does (weights as exact rationals of f64)
+-/
+import Molli.Util.Basic
+import Molli.Model.Grid
+namespace Molli.Driver.C19
+open Molli.Util Molli.Model.Grid
+
+def natOfHex? (s : String) : Option Nat :=
+  if s.isEmpty then none else
+  s.toList.foldl (fun acc c => match acc, hexVal? c with
+    | some a, some v => some (16 * a + v)
+    | _, _ => none) (some 0)
+
+def hexOfNat (width : Nat) (n : Nat) : String :=
+  String.ofList ((List.range width).reverse.map fun i => hexDigit ((n / 16 ^ i) % 16))
+
+def parseRat? (s : String) : Option Rat :=
+  match s.splitOn "/" with
+  | [p] => p.toInt?.map fun i => (i : Rat)
+  | [p, q] => do
+      let p ← p.toInt?
+      let q ← q.toNat?
+      if q = 0 then none else some (mkRat p q)
+  | _ => none
+
+def showRat (r : Rat) : String :=
+  if r.den = 1 then toString r.num else toString r.num ++ "/" ++ toString r.den
+
+def parseF32? (s : String) : Option Float32 :=
+  if s.length ≠ 8 then none else (natOfHex? s).map fun n => Float32.ofBits (UInt32.ofNat n)
+def parseF64? (s : String) : Option Float :=
+  if s.length ≠ 16 then none else (natOfHex? s).map fun n => Float.ofBits (UInt64.ofNat n)
+def showF32 (f : Float32) : String := hexOfNat 8 f.toBits.toNat
+def showF64 (f : Float) : String := hexOfNat 16 f.toBits.toNat
+
+/-- exact rational value of a finite binary64 -/
+def ratOfF64 (f : Float) : Rat :=
+  let b : Nat := f.toBits.toNat
+  let neg : Bool := b / 2 ^ 63 == 1
+  let e : Nat := (b / 2 ^ 52) % 2048
+  let m : Nat := b % 2 ^ 52
+  let mag : Rat :=
+    if e = 0 then mkRat (Int.ofNat m) (2 ^ 1074)
+    else if e ≥ 1075 then ((Int.ofNat ((2 ^ 52 + m) * 2 ^ (e - 1075)) : Int) : Rat)
+    else mkRat (Int.ofNat (2 ^ 52 + m)) (2 ^ (1075 - e))
+  if neg then -mag else mag
+
+section parse
+variable {α : Type} (num : String → Option α)
+
+def parseList (s : String) (sep : String) {β : Type} (f : String → Option β) : Option (List β) :=
+  if s == "-" then some [] else (s.splitOn sep).mapM f
+
+def parsePoint (s : String) : Option (P3 α) :=
+  match s.splitOn ":" with
+  | [x, y, z] => do pure ⟨← num x, ← num y, ← num z⟩
+  | _ => none
+
+def parsePoints (s : String) : Option (List (P3 α)) := parseList s "," (parsePoint num)
+def parseEns (s : String) : Option (List (List (P3 α))) :=
+  if s == "~" then some [] else (s.splitOn "|").mapM (parsePoints num)
+def parseNums (s : String) : Option (List α) := parseList s "," num
+end parse
+
+def joinC (l : List String) : String := if l.isEmpty then "-" else ",".intercalate l
+
+def showP (p : P3 Rat) : String := showRat p.x ++ ":" ++ showRat p.y ++ ":" ++ showRat p.z
+
+def abs' (r : Rat) : Rat := if r < 0 then -r else r
+
+/-- `|d − c| ≤ band·c` -/
+def near (band d c : Rat) : Bool := decide (abs' (d - c) ≤ band * abs' c)
+
+def runCdist22 {α : Type} (num : String → Option α) (shw : α → String) (f : P3 α → P3 α → α) (a b : String) : String :=
+  match parsePoints num a, parsePoints num b with
+  | some a, some b =>
+    let r := cdist22With f a b
+    s!"{r.length} {b.length} " ++ joinC (r.flatten.map shw)
+  | _, _ => "err:bad-request"
+
+def runCdist32 {α : Type} (num : String → Option α) (shw : α → String) (f : P3 α → P3 α → α) (a b : String) : String :=
+  match parseEns num a, parsePoints num b with
+  | some a, some b =>
+    let r := cdist32With f a b
+    s!"{r.length} {b.length} " ++ joinC ((r.flatten).flatten.map shw)
+  | _, _ => "err:bad-request"
+
+def weights? (s : String) : Option (Option (List Rat)) :=
+  if s == "-" then some none else (parseNums parseRat? s).map some
+
+/-- flags of the exact decisions of one (conformer, grid point) pair -/
+def sphereBand (band : Rat) (conf : List (P3 Rat)) (radii : List Rat) (g : P3 Rat) : Bool :=
+  (conf.zip radii).any fun ar => near band (dist2 ar.1 g) (ar.2 * ar.2)
+
+/-- two atoms whose squared distances to `g` are within the band of the minimum (a tie up to rounding) -/
+def tieBand (band : Rat) (conf : List (P3 Rat)) (g : P3 Rat) : Bool :=
+  match argmin (conf.map fun a => dist2 a g) with
+  | none => false
+  | some (i, d) =>
+    (List.zipIdx (conf.map fun a => dist2 a g)).any fun (e, j) => j ≠ i && decide (e - d ≤ band * (abs' d + abs' e))
+
+def handle (payload : String) : String :=
+  match words payload with
+  | ["cdist22", "f32", "sq", a, b] => runCdist22 parseF32? showF32 dist2 a b
+  | ["cdist22", "f32", "eu", a, b] => runCdist22 parseF32? showF32 distF32 a b
+  | ["cdist22", "f64", "sq", a, b] => runCdist22 parseF64? showF64 dist2 a b
+  | ["cdist22", "f64", "eu", a, b] => runCdist22 parseF64? showF64 distF64 a b
+  | ["cdist22", "rat", "sq", a, b] => runCdist22 parseRat? showRat dist2 a b
+  | ["cdist32", "f32", "sq", a, b] => runCdist32 parseF32? showF32 dist2 a b
+  | ["cdist32", "f32", "eu", a, b] => runCdist32 parseF32? showF32 distF32 a b
+  | ["cdist32", "f64", "sq", a, b] => runCdist32 parseF64? showF64 dist2 a b
+  | ["cdist32", "f64", "eu", a, b] => runCdist32 parseF64? showF64 distF64 a b
+  | ["cdist32", "rat", "sq", a, b] => runCdist32 parseRat? showRat dist2 a b
+  | ["grid", lx, ly, lz, rx, ry, rz, pad, s] =>
+    match [lx, ly, lz, rx, ry, rz, pad, s].mapM parseRat? with
+    | some [lx, ly, lz, rx, ry, rz, pad, s] =>
+      if s ≤ 0 ∨ rx + pad < lx - pad ∨ ry + pad < ly - pad ∨ rz + pad < lz - pad then "err:domain" else
+      let g := rectGrid ⟨lx, ly, lz⟩ ⟨rx, ry, rz⟩ pad s
+      s!"{axisCount (lx - pad) (rx + pad) s} {axisCount (ly - pad) (ry + pad) s} {axisCount (lz - pad) (rz + pad) s} "
+        ++ joinC (g.map showP)
+    | _ => "err:bad-request"
+  | ["nearest", band, maxd, atoms, grid] =>
+    match parseRat? band, parseRat? maxd, parsePoints parseRat? atoms, parsePoints parseRat? grid with
+    | some band, some maxd, some atoms, some grid =>
+      joinC (grid.map fun g =>
+        let k := nearest atoms maxd g
+        let cut := match argmin (atoms.map fun a => dist2 a g) with
+          | none => false
+          | some (_, d) => near band d (maxd * maxd)
+        s!"{k}:{if cut || tieBand band atoms g then 1 else 0}")
+    | _, _, _, _ => "err:bad-request"
+  | ["prune", band, maxd, eps, atoms, grid] =>
+    match parseRat? band, parseRat? maxd, parseRat? eps, parsePoints parseRat? atoms, parsePoints parseRat? grid with
+    | some band, some maxd, some eps, some atoms, some grid =>
+      let cls := grid.map fun g =>
+        match argmin (atoms.map fun a => dist2 a g) with
+        | none => "D"
+        | some (_, d) =>
+          let m2 := maxd * maxd
+          let inner := m2 / ((1 + eps) * (1 + eps))
+          let c := if d ≤ inner then "K" else if d ≤ m2 then "F" else "D"
+          if near band d m2 || near band d inner then c.toLower else c
+      joinC ((pruneExact atoms maxd grid).map toString) ++ ";" ++ joinC cls
+    | _, _, _, _, _ => "err:bad-request"
+  | ["aso", band, w, radii, ens, grid] =>
+    match parseRat? band, weights? w, parseNums parseRat? radii, parseEns parseRat? ens, parsePoints parseRat? grid with
+    | some band, some w, some radii, some ens, some grid =>
+      let vals := aso ens radii w grid
+      joinC ((vals.zip grid).map fun (v, g) =>
+        s!"{showRat v}:{if ens.any (fun c => sphereBand band c radii g) then 1 else 0}")
+    | _, _, _, _, _ => "err:bad-request"
+  | ["aeif", band, w, radii, charges, ens, grid] =>
+    match parseRat? band, weights? w, parseNums parseRat? radii, parseList charges "|" (parseNums parseRat?),
+          parseEns parseRat? ens, parsePoints parseRat? grid with
+    | some band, some w, some radii, some charges, some ens, some grid =>
+      let vals := aeif ens charges radii w grid
+      let m := maxOf radii
+      joinC ((vals.zip grid).map fun (v, g) =>
+        let flag := ens.any fun c =>
+          sphereBand band c radii g || (occupied c radii g && tieBand band c g) ||
+          (match argmin (c.map fun a => dist2 a g) with
+            | none => false
+            | some (_, d) => near band d (m * m))
+        s!"{showRat v}:{if flag then 1 else 0}")
+    | _, _, _, _, _, _ => "err:bad-request"
+  | ["asof32", w, radii, ens, grid] =>
+    match parseList w "," parseF64?, parseNums parseF64? radii, parseEns parseF32? ens, parsePoints parseF32? grid with
+    | some wf, some radii, some ens, some grid =>
+      let w : Option (List Rat) := if w == "-" then none else some (wf.map ratOfF64)
+      joinC (grid.map fun g => showRat (average w (ens.map fun c => indicator01 (occupiedF32 c radii g))))
+    | _, _, _, _ => "err:bad-request"
+  | _ => "err:bad-request"
 
 end Molli.Driver.C19
